@@ -21,7 +21,10 @@ def batches(tier, seed):
     cases = []
     for i in range(n):
         for _try in range(60):
-            c = dsgcase.gen_sel(rng, max_nodes=9, max_choices=3, n_incompat=rng.choice([0, 0, 1]))
+            if i % 3 == 2:
+                c = dsgcase.gen_layered(rng, cons_prob=0.6)      # nested choices, prior choice constraints
+            else:
+                c = dsgcase.gen_sel(rng, max_nodes=9, max_choices=3, n_incompat=rng.choice([0, 0, 1, 2, 3, 4]))
             if not dsgcase.guards(c):
                 break
         c = procdrive.decorate(rng, c, n_dv=(0, 2))
@@ -92,7 +95,8 @@ def run_case(case):
         g5._start_nodes = set(g.derivation_start_nodes) | {others[0]}
         pair('other-start-nodes', g5)
     chs = [n for n in g.graph.nodes if isinstance(n, SelectionChoiceNode)]
-    if len(chs) >= 2 and not g.get_choice_constraints():
+    chs = sorted((n for n in chs if g.is_constrained_choice(n) is None), key=lambda n: b.ident[n])
+    if len(chs) >= 2:
         try:
             g6 = g.copy()
             g6 = g6.constrain_choices(ChoiceConstraintType.LINKED, chs[:2], remove_infeasible_choices=False)
@@ -113,6 +117,33 @@ def run_case(case):
         n_nodes, n_edges = len(_re.findall(r'^\s*node \[', gml, _re.M)), len(_re.findall(r'^\s*edge \[', gml, _re.M))
         if n_nodes != len(g.graph.nodes) or n_edges != len(g.graph.edges):
             fails.append({'clause': 'gml-export-incomplete', 'detail': '%d/%d nodes %d/%d edges' % (n_nodes, len(g.graph.nodes), n_edges, len(g.graph.edges))})
+        # DOT: every node that has an edge and every edge must be drawn (nodes are recognised by their titles; the export is a
+        # strict digraph, so parallel edges fall together; an incompatibility, stored in both directions, is drawn once)
+        from adsg_core.graph.graph_edges import EdgeType as _ET, get_edge_type as _get
+        dot = g.export_dot()
+        all_edges = list(g.graph.edges(keys=True, data=True))
+        with_edge = []
+        for e in all_edges:
+            for n_ in e[:2]:
+                if n_ not in with_edge:
+                    with_edge.append(n_)
+        titles = [str(n_.get_export_title()) for n_ in with_edge]
+        if len(set(titles)) == len(titles):
+            ids = {}
+            for m_ in _re.finditer(r'^\s*(\d+)\s*\[label=(?:<<B>(.*?)</B>>|"(.*?)")', dot, _re.M):
+                ids.setdefault(m_.group(2) if m_.group(2) is not None else m_.group(3), []).append(m_.group(1))
+            drawn = {(m_.group(1), m_.group(2)) for m_ in _re.finditer(r'^\s*(\d+)\s*->\s*(\d+)', dot, _re.M)}
+            missing_nodes = [t for t in titles if len(ids.get(t, [])) != 1]
+            if missing_nodes:
+                fails.append({'clause': 'dot-export-incomplete', 'detail': 'nodes not drawn exactly once: %s' % missing_nodes[:5]})
+            else:
+                tid = {n_: ids[t][0] for n_, t in zip(with_edge, titles)}
+                for e in all_edges:
+                    s_, t_ = tid[e[0]], tid[e[1]]
+                    ok_ = (s_, t_) in drawn or (_get(e) == _ET.INCOMPATIBILITY and (t_, s_) in drawn)
+                    if not ok_:
+                        fails.append({'clause': 'dot-export-incomplete', 'detail': '%s edge %s -> %s is not drawn' % (_get(e).name, e[0], e[1])})
+                        break
     except Exception as e:
         fails.append({'clause': 'export-raises:%s' % type(e).__name__, 'detail': str(e)[:200]})
     # processor: pickle round trip keeps variables and decodes; another interpreter with another hash seed as well
